@@ -38,6 +38,36 @@ CHECKS = {
  "C19": ("model_checking", "trace equality in TLC: each instance run under two generator states and after an unrelated solve",
          "Three recorded behaviours per instance must be identical event for event (point digests, rank-encoded values, result digest); caller data compared with deep copies.",
          "configurations without documented random options", "5 C19"),
+ "C05": ("exploration", "Problems.tla KKT-pattern enumeration -> constructed optimum -> validated solver trace with final optimality clause",
+         "TLC enumerates every KKT pattern (free / at lower / at upper per coordinate x shape x x0 placement x scaling x point count x conditioning); instances are built so that the optimality conditions hold by construction at a known x*; the real solver (default budget) runs under the recorder, the trace is validated against DfolsTrace.tla and the final clauses require feasibility, the success flag and obj - f* <= 1e-6(1+f*). TLA+ does not decide convergence: exploration level.",
+         "n <= 3 (quick) / 4 (thorough), cond <= 1e3; optimum known by construction", "5 C05 and 2.4"),
+ "C06": ("exploration", "Problems.tla subgradient-pattern enumeration -> constructed regularised optimum -> validated solver trace",
+         "As C05 for l1 / l2-norm regularisers (positive / negative / zero-strict / zero-at-kink / bound-active patterns), lambda over 3 decades, argsh/argsprox pass-through checked; final clauses: objective within 1e-3(1+F*), success flag.",
+         "n <= 3, cond <= 1e2; the success-flag clause has one known finding (slow-progress warning at the optimum)", "5 C06 and 2.4"),
+ "C07": ("model_checking", "DfolsApi.tla decision tables replayed state by state into dfols.solve (R-Api) + Dfols.tla flag/termination + restart corpus",
+         "TLC enumerates every argument-class combination (in the code's validation order), every key x value class of the 71 user parameters and the unknown key, with the predicted outcome; each state is one real solve call whose outcome must match. The control model proves the returned flag documented on every path and termination under fairness (this found F-24); restart-heavy real runs are validated for documented flags.",
+         "key table transcribed once into the specification; None values are not a class", "5 C07"),
+ "C12": ("exploration", "Kernels.tla class-pattern enumeration -> concretised trsbox calls -> contract clauses in the trace specification (+ every in-solver call)",
+         "Exhaustive class patterns (position of each coordinate w.r.t. its bounds x gradient sign x Hessian kind) for n <= 2/3, sampled to n = 8, several scalings each; contract classes (box, norm, model decrease, Cauchy decrease, gradient identity) computed in binary64 by the harness and evaluated by DfolsTrace.tla; the same clauses judge every trsbox call observed inside recorded solver runs.",
+         "explored domain |xopt| <= 100*delta; clauses allow for the rounding of d = (xopt+d)-xopt only", "5 C12"),
+ "C13": ("exploration", "Kernels.tla class patterns -> trsbox_geometry / ctrsbox_* calls and in-solver regularised steps -> contract clauses",
+         "As C12 for the geometry solver (box to 1e-12, ball, global maximum against a bisection oracle, never worse than the zero step), the convex step kernels (norm bound) and the regularised step handed to the main loop (predicted reduction recomputed with the code's formula, observed in real regularised runs with bounds and with projections).",
+         "gradient components 0 or >= 1e-10", "5 C13"),
+ "C14": ("model_checking", "InitSet.tla exact lattice transcription, R-Init exact replay; DirGen.tla active-set patterns replayed into the generators",
+         "TLC enumerates every placement of x0 relative to each bound (34 per coordinate) x npt and checks the C14 invariants on the lattice; every configuration is replayed on the real solve with dyadic data and the evaluated points must equal the prediction exactly; condition number computed on the real points; generator contracts over all active-set patterns.",
+         "n <= 2 quick / 3 thorough for the exact replay; one known finding (2*delta block)", "5 C14"),
+ "C15": ("model_checking", "Dykstra.tla sweep machine (TLC, with termination) + stop-rule clause evaluated on every observed projector call of direct dykstra calls",
+         "The stop rule is decided by the specification from per-sweep bits recomputed bit-exactly by the recorder; feasibility sqrt(p*tol), distance to a machine-precision reference projection, idempotence, exact last box, sweep cap.",
+         "harness's own exact projectors", "5 C15"),
+ "C16": ("model_checking", "ModelMC.tla factorisation-flag invariant + identity classes on random interleavings of the real Model validated by the trace specification",
+         "Flag logic model-checked exhaustively; interpolation / normal-equation / Lagrange / base-shift / cached-QR identities evaluated by the driver with a conditioning-scaled tolerance after random interleavings of replacement, shifts and re-fits; flags predicted by the DfolsModel operators at every call.",
+         "tolerance 1e3*eps*cond*(1+|points|/spread)", "5 C16"),
+ "C17": ("model_checking", "ModelMC.tla exhaustive + R-Model replay of TLC behaviours on the real Model (exact) + random-sequence trace validation",
+         "All operation sequences to the depth bound over values with ties/NaN/+Inf are model-checked; TLC simulation behaviours (depth 12 and 50) are stepped through the real Model with exact comparison of the full projected state, with and without a regulariser; random sequences on the real Model are validated against the same operators.",
+         "exact replay needs <= 2 samples per slot", "5 C17"),
+ "C20": ("model_checking", "DfolsApi.tla result-kind table replayed into OptimResults (R-Result) + every result of a solver corpus round-tripped",
+         "TLC enumerates all 13 824 field-kind combinations; each is built, serialised strictly, reloaded and printed; every result of a solver corpus (all reachable flags, diagnostics, sizes beyond printing thresholds, NaN overlays) goes through the same oracle.",
+         "infinite entries outside the property's letter; save_xk/save_rk documented limitation", "5 C20"),
 }
 NOT_YET = {}
 
